@@ -17,3 +17,14 @@ var ioSync int64
 
 func raceWrite() { runtime.RaceReleaseMerge(unsafe.Pointer(&ioSync)) }
 func raceRead()  { runtime.RaceAcquire(unsafe.Pointer(&ioSync)) }
+
+// bbolt serialises its transactions through its own locks (rwlock, metalock,
+// mmaplock), so every metadata call is ordered after every earlier one. The
+// simulated store mirrors that with one sync variable, touched on entry and
+// exit of each call.
+var metaSync int64
+
+func raceMeta() {
+	runtime.RaceAcquire(unsafe.Pointer(&metaSync))
+	runtime.RaceReleaseMerge(unsafe.Pointer(&metaSync))
+}
